@@ -1,10 +1,13 @@
 import Driver.DiffDB
 import Driver.Fns
 import Driver.Codec
+import Driver.BFT
 
 def main (args : List String) : IO UInt32 := do
   match args with
   | ["C12"] => Driver.DiffDB.main; return 0
   | ["C07"] => Driver.Fns.main; return 0
   | ["C08"] => Driver.Codec.main; return 0
+  | ["C02"] => Driver.BFT.main; return 0
+  | ["C01"] => Driver.BFT.main; return 0
   | _ => IO.eprintln "usage: ldriver <property-id>"; return 2
